@@ -130,6 +130,13 @@ fn check_file(rows: &[&RowSpec], lead: &str, st: &mut Stats) {
         }
         Ok(Ok(d)) => d,
     };
+    // a neighbour dictionary with one short word, built and used in the same thread after this one
+    // was built and before it is queried: the dictionary under test must not notice
+    if let Ok(Ok(nd)) = guard(|| SystemDictionaryBuilder::from_readers("x,0,0,1,neighbour\n".as_bytes(), MATRIX.as_bytes(), CHARDEF.as_bytes(), UNK.as_bytes())) {
+        let nt = Tokenizer::new(nd);
+        let _ = run_fresh(&nt, "x", false);
+        st.count("neighbour_dictionaries_built_before_the_lookups");
+    }
     // features verbatim, in row order
     for (i, r) in expected.iter().enumerate() {
         let got = guard(|| d.word_feature(WordIdx { lex_type: LexType::System, word_id: i as u32 }).to_string());
